@@ -230,11 +230,11 @@ class Inst:
             if isinstance(c, list):
                 cc = list(c)
                 if self.hit(0.3):
-                    cc = rng.choice([cc[:-1], cc + [3.0], [x + 1.0 for x in cc], cc[0]])
+                    cc = rng.choice([cc[:-1], cc + [3.0], [x + 1.0 for x in cc], cc[0]] + reshaped(cc))
                 return self.new_const(cc)
             delta = rng.choice([0.0, 0.0, 1e-6, 1e-9, 1e-2, 0.25, 1.0, -1e-6]) if self.perturb else 0.0
             if self.hit(0.1):
-                return self.new_const(rng.choice(["other", [c]]))
+                return self.new_const(rng.choice(["other", [c], {"shape": [1, 1], "data": [c]}, {"shape": [], "data": [c]}]))
             if self.perturb and rng.random() < 0.5:
                 return self.new_const(rng.choice(boundary_values(c, d[2], d[3])))     # either side of the tolerance
             return self.new_const(c + delta)
@@ -414,6 +414,9 @@ def cases(ctx):
     rng = ctx.rng
     yield from corpus()
     yield from const_family(ctx)
+    yield from tolerance_family(ctx)
+    yield from list_const_family(ctx)
+    yield from domain_family(ctx)
     yield from or_scope_family(ctx)
     yield from committed_family(ctx)
     yield from sweep(ctx)
@@ -612,7 +615,8 @@ def host_variants(rng, h):
             n["outs"] = n["outs"] + [max(o for m in h2["nodes"] for o in m["outs"]) + 10 + len(hs)]
     hs.append(h2)
     if any(2 in n["ins"] for n in h["nodes"]):       # the constant operand: a 1-element vector, another value, nearly 1
-        for c in ([1.0], rng.choice([1.5, "other", [1.0, 2.0]]), rng.choice([1.000001, 1.0 + 1e-3])):
+        for c in ([1.0], rng.choice([1.5, "other", [1.0, 2.0]]), rng.choice([1.000001, 1.0 + 1e-3]),
+                  rng.choice([{"shape": [1, 1], "data": [1.0]}, {"shape": [], "data": [1.0]}, {"shape": [1], "data": [1.0]}])):
             hc = copy.deepcopy(h)
             hc["consts"] = {"2": c}
             hs.append(hc)
@@ -685,6 +689,234 @@ def const_family(ctx):
             yield p, h, False, "const-boundary", {"coq_rate": 0.5}
             if commutable(p):
                 yield p, h, True, "const-boundary-commute", {"coq_rate": 0.5}
+
+
+def reshaped(elems):
+    """The same elements (row-major) as tensors of other shapes -- and of the same shape in the second encoding."""
+    n = len(elems)
+    out = [{"shape": [n], "data": list(elems)},                       # rank 1, written as a tensor: the same constant
+           {"shape": [n, 1], "data": list(elems)}, {"shape": [1, n], "data": list(elems)},
+           {"shape": [1, 1, n], "data": list(elems)}, {"shape": [n, 1, 1], "data": list(elems)}]
+    if n == 1:
+        out += [elems[0], {"shape": [], "data": list(elems)}]         # 0-d
+    for a in range(2, n):
+        if n % a == 0:
+            out.append({"shape": [a, n // a], "data": list(elems)})
+    return out
+
+
+def _f32_ord(x):
+    import numpy as np
+    i = int(np.float32(x).view(np.int32))
+    return i if i >= 0 else -(i & 0x7FFFFFFF)
+
+
+def _f32_of_ord(k):
+    import numpy as np
+    i = k if k >= 0 else ((-k) | 0x80000000) - (1 << 32)
+    return float(np.array([i], dtype=np.int64).astype(np.int32).view(np.float32)[0])
+
+
+def exact_close(v, c, rel, abs_):
+    from fractions import Fraction
+    v, c, rel, abs_ = Fraction(v), Fraction(c), Fraction(rel), Fraction(abs_)
+    return abs(v - c) <= max(rel * max(abs(v), abs(c)), abs_)
+
+
+def tight_boundary_values(c, rel, abs_, stats=None):
+    """float32 host constants AT the tolerance bound around the pattern constant c, on both sides of c: the last float32
+    value that is within the tolerance, its inner neighbour, the first one that is not, its outer neighbour (found by
+    bisection over the float32 ordinals with exact rational arithmetic; the set of close values is an interval).
+    math.isclose rounds (rel_tol * x and a - b in double): values on which its verdict differs from the exact one are left
+    out and counted -- the model (and the property's "within the stated tolerance") reads the bound exactly.  With
+    dyadic tolerances and constants every double operation is exact and the bound itself is a float32 value."""
+    import math
+    import numpy as np
+    rel = 1e-5 if rel is None else rel
+    abs_ = 1e-8 if abs_ is None else abs_
+    c32 = float(np.float32(c))
+    out = []
+    if not exact_close(c32, c, rel, abs_):
+        return out
+    eff = max(rel * abs(c), abs_)
+    for sgn in (1, -1):
+        far = float(np.float32(c + sgn * (4 * eff + abs(c) * 1e-6 + 1e-30)))
+        k = 0
+        while exact_close(far, c, rel, abs_) and k < 40:
+            far = float(np.float32(c + sgn * (abs(far - c) * 4 + 1e-30)))
+            k += 1
+        if exact_close(far, c, rel, abs_) or not math.isfinite(far):
+            continue
+        lo, hi = _f32_ord(c32), _f32_ord(far)          # lo close, hi not close
+        step = 1 if hi > lo else -1
+        while abs(hi - lo) > 1:
+            mid = (lo + hi) // 2
+            if exact_close(_f32_of_ord(mid), c, rel, abs_):
+                lo = mid
+            else:
+                hi = mid
+        for o in (lo - step, lo, hi, hi + step):
+            v = _f32_of_ord(o)
+            if not math.isfinite(v):
+                continue
+            if math.isclose(v, c, rel_tol=rel, abs_tol=abs_) != exact_close(v, c, rel, abs_):
+                if stats is not None:
+                    stats["rounding_excluded"] = stats.get("rounding_excluded", 0) + 1
+                continue
+            if v not in out:
+                out.append(v)
+    return out
+
+
+TIGHT_CONSTS = [0.0, 1.0, -1.0, 1000.0, -2500.0, 1e-3, 1024.0, 0.5, 3.0, -0.75, 1e6]
+TIGHT_TOLS = [(None, None), (1e-3, None), (None, 1e-4), (1e-2, 1e-6), (1e-9, 0.05), (0.0, 1e-6), (0.0, 0.0),
+              (2.0 ** -10, 2.0 ** -12), (2.0 ** -7, 0.0), (0.0, 2.0 ** -4), (2.0 ** -10, None), (1e-5, 1e-8), (1e-8, 1e-5)]
+TIGHT_STATS = {}
+
+
+def tolerance_family(ctx):
+    """Scalar constants AT the tolerance bound (last float32 value inside, first outside, and their neighbours; both
+    signs of the deviation and of the constant, zero, relative and absolute regime, exact (0, 0) tolerances, dyadic
+    tolerances where the bound itself is hit), the constant as first and as second operand, with and without
+    commute=True (the swapped copies are made by Constant.clone, which must keep both tolerances in their roles)."""
+    rng = ctx.rng
+    X = ["var", "x"]
+    combos = [(c, t) for c in TIGHT_CONSTS for t in TIGHT_TOLS]
+    if ctx.tier == "quick":
+        combos = rng.sample(combos, 36)
+    TIGHT_STATS.clear()
+    TIGHT_STATS.update({"rounding_excluded": 0, "values": 0, "inside": 0, "outside": 0, "on_the_bound": 0})
+    from fractions import Fraction
+    for c, (rel, abs_) in combos:
+        K = ["const", c, rel, abs_]
+        vals = tight_boundary_values(c, rel, abs_, TIGHT_STATS)
+        r = 1e-5 if rel is None else rel
+        a = 1e-8 if abs_ is None else abs_
+        for v in vals:
+            TIGHT_STATS["values"] += 1
+            inside = exact_close(v, c, r, a)
+            TIGHT_STATS["inside" if inside else "outside"] += 1
+            d = abs(Fraction(v) - Fraction(c))
+            if d != 0 and d == max(Fraction(r) * max(abs(Fraction(v)), abs(Fraction(c))), Fraction(a)):
+                TIGHT_STATS["on_the_bound"] += 1
+        ops = ["Add", "Mul", "Sub"] if ctx.tier != "quick" else [rng.choice(["Add", "Mul"]), "Sub"]
+        for op in ops:
+            for kfirst in (False, True):
+                p = _pat([{"op": op, "ins": [K, X] if kfirst else [X, K]}])
+                for v in vals:
+                    for order in ((0, 2), (2, 0)):
+                        h = {"nodes": [{"op": op, "dom": "", "attrs": [], "ins": list(order), "outs": [3]}],
+                             "inputs": [0], "outs": [3], "consts": {"2": v}}
+                        yield p, h, False, "tolerance-bound", {"coq_rate": 1.0}
+                        if commutable(p):
+                            yield p, h, True, "tolerance-bound-commute", {"coq_rate": 1.0}
+
+
+def list_const_family(ctx):
+    """List-valued constants: op(x, [..]) / op([..], x) / below another node / as an OrValue alternative / with stated
+    tolerances / with commute=True, against hosts whose constant operand has the SAME elements as a rank-1 tensor (both
+    encodings), as tensors of ranks 2 and 3 ([n,1], [1,n], [1,1,n], [n,1,1], [a,b]), as a 0-d tensor (one-element
+    lists), with another length, with one element off / at the tolerance bound, and a non-constant operand.  Documented
+    meaning: a list constant matches a rank-1 tensor of exactly that length whose elements agree within tolerance."""
+    rng = ctx.rng
+    X, Y = ["var", "x"], ["var", "y"]
+    lists = [[0.0, 0.0], [1.0, 2.0], [5.0], [0.0], [1.0, 2.0, 3.0, 4.0], [0.0, 1000.0], [1.0, 1.0, 1.0]]
+    tols = [(None, None), (1e-3, None), (None, 0.5), (0.0, 0.0)]
+    pats = []
+    for L in lists:
+        for rel, abs_ in tols:
+            K = ["const", L, rel, abs_]
+            pats.append((_pat([{"op": "Add", "ins": [X, K]}]), L, rel, abs_, False))
+            pats.append((_pat([{"op": "Add", "ins": [K, X]}]), L, rel, abs_, True))
+            pats.append((_pat([{"op": "Sub", "ins": [X, K]}]), L, rel, abs_, False))
+            pats.append((_pat([{"op": "Relu", "ins": [X]}, {"op": "Mul", "ins": [["out", 0, 0], K]}]), L, rel, abs_, True))
+            pats.append((_pat([{"op": "Relu", "ins": [X]}, {"op": "Sub", "ins": [Y, ["or", 0]]}],
+                              ors=[{"alts": [K, ["out", 0, 0]], "tagv": "tg"}]), L, rel, abs_, False))
+    if ctx.tier == "quick":
+        pats = rng.sample(pats, 30)
+    for p, L, rel, abs_, commute in pats:
+        n = len(L)
+        consts = [list(L)] + reshaped(L)
+        consts += [list(L[:-1]) if n > 1 else [], list(L) + [L[-1]], [x + 1.0 for x in L], list(L[:-1]) + [L[-1] + 0.25]]
+        consts += [{"shape": [n, 1], "data": [x + 1.0 for x in L]}, "other"]
+        for v in tight_boundary_values(L[-1], rel, abs_)[:4]:          # the last element at the tolerance bound
+            consts.append(list(L[:-1]) + [v])
+            consts.append({"shape": [1, n], "data": list(L[:-1]) + [v]})
+        if ctx.tier == "quick":
+            consts = consts[:2] + rng.sample(consts[2:], min(len(consts) - 2, 9))
+        root = p["nodes"][-1]
+        kpos = [i for i, a in enumerate(root["ins"]) if a[0] in ("const", "or")][0]
+        for cst in consts + [None]:
+            for order in ((0, 1), (1, 0)):
+                if len(p["nodes"]) == 2 and not p["ors"]:
+                    other, nodes = 3, [{"op": "Relu", "dom": "", "attrs": [], "ins": [0], "outs": [3]}]
+                else:
+                    other, nodes = 0, []
+                ins = [None, None]
+                ins[kpos] = 2
+                ins[1 - kpos] = other
+                ins = [ins[k] for k in order]
+                nodes = nodes + [{"op": root["op"], "dom": "", "attrs": [], "ins": ins, "outs": [4]}]
+                h = {"nodes": nodes, "inputs": [0] if cst is not None else [0, 2], "outs": [4],
+                     "consts": {"2": cst} if cst is not None else {}}
+                yield p, h, False, "list-const", {"coq_rate": 1.0}
+                if commute and commutable(p):
+                    yield p, h, True, "list-const-commute", {"coq_rate": 1.0}
+
+
+def domain_family(ctx):
+    """Domain and operator given by PREFIX patterns (pattern.torch_module_op = domain "pkg.torch*", a user-made
+    OpsetPatternBuilder(PrefixPattern(..)), .submodule(name) = operator prefix) and by _domain=: the prefix-domain node
+    as root / interior node / one of several output nodes / OrValue alternative, against hosts whose node has every
+    combination of domain in {the prefix, prefix + suffix, a proper prefix of it, "", other case, another domain} and
+    operator in {the name, name + suffix, a proper prefix, another}.  Nodes made by another opset builder are not in
+    GraphPattern._nodes; with commute=True and a commutative node in the pattern the rule set cannot be built."""
+    rng = ctx.rng
+    X, Y = ["var", "x"], ["var", "y"]
+    T = "pkg.torch"
+    pats = [
+        (_pat([{"op": "mod_", "prefix": True, "dom_prefix": T, "ins": [X]}]), T, "mod_"),
+        (_pat([{"op": "Silu", "dom_prefix": T, "ins": [X]}]), T, "Silu"),
+        (_pat([{"op": "Relu", "ins": [X]}, {"op": "mod_", "prefix": True, "dom_prefix": T, "ins": [["out", 0, 0]]}]), T, "mod_"),
+        (_pat([{"op": "Silu", "dom_prefix": T, "ins": [X]}, {"op": "Relu", "ins": [["out", 0, 0]]}]), T, "Silu"),
+        (_pat([{"op": "Silu", "dom_prefix": T, "ins": [X]}, {"op": "Sub", "ins": [["out", 0, 0], Y]}]), T, "Silu"),
+        (_pat([{"op": "Silu", "dom_prefix": "custom", "ins": [X]}]), "custom", "Silu"),
+        (_pat([{"op": "Silu", "dom_prefix": "", "ins": [X]}]), "", "Silu"),                       # the empty prefix: any domain
+        (_pat([{"op": "Silu", "dom_prefix": T, "dom": "custom", "ins": [X]}]), "custom", "Silu"),  # _domain= overrides the builder's
+        (_pat([{"op": "mod_", "prefix": True, "dom": "custom", "ins": [X]}]), "custom", "mod_"),
+        (_pat([{"op": "Silu", "dom_prefix": T, "ins": [X]}, {"op": "Neg", "ins": [X]}], [["out", 0, 0], ["out", 1, 0]]), T, "Silu"),
+        (_pat([{"op": "Neg", "ins": [X]}, {"op": "Silu", "dom_prefix": T, "ins": [X]}], [["out", 0, 0], ["out", 1, 0]]), T, "Silu"),
+        (_pat([{"op": "Silu", "dom_prefix": T, "ins": [X]}, {"op": "Relu", "ins": [X]}, {"op": "Sub", "ins": [["or", 0], Y]}],
+              ors=[{"alts": [["out", 0, 0], ["out", 1, 0]], "tagv": "tg"}]), T, "Silu"),
+        (_pat([{"op": "Silu", "dom_prefix": T, "ins": [X], "attrs": [["axis", ["v", "a"]]], "other_attrs": False}]), T, "Silu"),
+    ]
+    # commute=True with a commutative node next to a node of another opset builder
+    cpats = [_pat([{"op": "Add", "ins": [X, Y]}, {"op": "mod_", "prefix": True, "dom_prefix": T, "ins": [["out", 0, 0]]}]),
+             _pat([{"op": "Silu", "dom_prefix": T, "ins": [X]}, {"op": "Add", "ins": [["out", 0, 0], Y]}])]
+    for p, dom, opn in pats:
+        doms = [dom, dom + ".v2", dom + "x", dom[:-1] if dom else "q", "", dom.capitalize() if dom else "Q", "other"]
+        ops = [opn, opn + "a", opn[:-1], "x" + opn, "Relu"]
+        doms = list(dict.fromkeys(doms))
+        combos = [(d, o) for d in doms for o in ops]
+        if ctx.tier == "quick":
+            combos = combos[:2] + rng.sample(combos[2:], 10)
+        j = [k for k, nd in enumerate(p["nodes"]) if nd.get("dom_prefix") is not None or nd.get("prefix")][0]
+        for d, o in combos:
+            inst = Inst(rng, p, False)
+            h = inst.host()
+            hn = h["nodes"][inst.node_of[j]] if j in inst.node_of else None
+            if hn is None or not toposort_ok(h):
+                continue
+            hn["dom"], hn["op"] = d, o
+            yield p, h, False, "prefix-domain", {"coq_rate": 1.0}
+            if rng.random() < 0.3:
+                h2 = double_host(rng, p, False)
+                if h2["nodes"] and toposort_ok(h2):
+                    yield p, h2, False, "prefix-domain", {"coq_rate": 1.0}
+    for p in cpats:
+        for h in hosts_for(rng, p, 2, 2, 0):
+            yield p, h, False, "prefix-domain", {"coq_rate": 1.0}
+            yield p, h, True, "prefix-domain-commute", {"coq_rate": 1.0}
 
 
 def or_scope_family(ctx):
